@@ -15,12 +15,12 @@ from ..symx import Expander, TupleV, ListV
 from ..ncf import M
 from .. import ncf, anf
 from ..anf import R, Unsupported
-from .common import struct_ob, guard
+from .common import struct_ob, guard, gradient_lists_in_order
 from ..report import Ob, AnalysisError
 
 REL = "inference/gp/inversion.py"
 FLOORS = {"posterior-form": 3, "evidence-form": 2, "evidence-gradient-form": 2, "noise-matrices": 1,
-          "triangular-solves": 1, "slice-layout": 1}
+          "triangular-solves": 1, "slice-layout": 2}
 
 ATOMS = {"self.A": ("A", 2, False), "self.y": ("y", 1, False), "self.inv_sigma": ("Si", 2, True),
          "self.sigma": ("S", 2, True)}
@@ -68,6 +68,12 @@ def run(prog, tier):
         cov = invX.matmul(K)
         mean = cov.matmul(A.T()).matmul(Si).matmul(y - A.matmul(m)) + m
         return cov, mean
+
+    c0, mg0 = prog.method("GpLinearInverter", "marginal_likelihood_gradient")
+    pr = gradient_lists_in_order(mg0, {"grad_K", "grad_mu", "grad_J", "grad_f"})
+    obs.append(struct_ob("slice-layout", qual(c0, mg0) + "[order]", not pr, "; ".join(pr), REL, mg0.lineno))
+    if pr:
+        return obs, {}, {"explanation": "gradient list order violated; formula rules not evaluated"}
 
     # ---------------------------------------------------------------- posterior
     c, fn = prog.method("GpLinearInverter", "calculate_posterior")
